@@ -240,7 +240,7 @@ func runJCase(c *jcase, em *Emitter, tags string, queries func(t *vm.Tracer, q f
 		em.Op(tags, "J none", "panic:"+strings.ReplaceAll(panicked, " ", "_"))
 	}
 	if root != nil && panicked == "" {
-		em.Op("-", fmt.Sprintf("T exit %s %s %s", hexU64(root.RemainingGas), optBytes(root.Ret), errStr(root.Err)), "ok")
+		em.Op("-", fmt.Sprintf("T exit %s %s %s", hexU64(root.RemainingGas), optBytes(root.Ret), ferr(root.Err)), "ok")
 	}
 	if queries != nil {
 		queries(env.evm.Tracer(), func(tg, op, impl string) { em.Op(tg, "Q "+op, impl) })
